@@ -15,7 +15,7 @@ import re
 from typing import List, Set
 
 from ..absstr import Evaluator, alphabet_of
-from ..astq import assignments, calls, kwarg, names_in, params, stmts
+from ..astq import assignments, calls, kwarg, local_from, names_in, params, stmts
 from ..callgraph import fkey
 from ..cfg import cond_atoms
 from ..report import Check
@@ -75,7 +75,8 @@ def s1(chk: Check, proj: Project, w) -> None:
     chk.analysed(fkey(dm, f3))
     cfg3 = w.pair.cfgs.get(f3)
     dom3 = cfg3.dominators()
-    q = [n for n in cfg3.nodes if n.ast is not None and any(isinstance(c, ast.Call) and isinstance(c.func, ast.Attribute) and c.func.attr in ("has_key", "get", "__contains__", "has") and norm(c.func.value) in ("cache", "get_component_media_cache()") for c in ast.walk(n.ast))]
+    cv = local_from(f3, lambda v: isinstance(v, ast.Call) and last_attr(v.func) == "get_component_media_cache") or "cache"
+    q = [n for n in cfg3.nodes if n.ast is not None and any(isinstance(c, ast.Call) and isinstance(c.func, ast.Attribute) and c.func.attr in ("has_key", "get", "__contains__", "has") and norm(c.func.value) in (cv, "get_component_media_cache()") for c in ast.walk(n.ast))]
     rets3 = [n for n in cfg3.nodes if n.kind == "return"]
     ok = bool(q) and all(any(cfg3.dominates(x, r_, dom3) or x is r_ for x in q) for r_ in rets3)
     chk.ob("S1", "dependencies:_is_script_in_cache:asks-backend-every-time", dm.loc(f3), ok, "every return of _is_script_in_cache is dominated by a query of the cache backend" if ok else "_is_script_in_cache can answer without asking the cache backend (side memo): after an eviction / cache clear the script is never re-cached and its URL answers 404")
@@ -175,7 +176,8 @@ def s4(chk: Check, proj: Project, w) -> None:
     nf = [s for s in stmts(f) if isinstance(s, ast.Return) and s.value is not None and "NotFound" in norm(s.value)]
     conds = [cond_atoms(s) for s in nf]
     has_cls = any(any("comp_cls" in t and ("is None" in t or " not in " in t) and pol for t, pol in c) for c in conds)
-    has_script = any(any("script is None" in t and pol for t, pol in c) for c in conds)
+    sv = local_from(f, lambda v: isinstance(v, ast.Call) and last_attr(v.func) == "get_script_content") or "script"
+    has_script = any(any(f"{sv} is None" in t and pol for t, pol in c) for c in conds)
     chk.ob("S4", "dependencies:cached_script_view:404-unknown-class", dm.loc(nf[0]) if nf else dm.loc(f), has_cls, "unknown class hash -> 404" if has_cls else "no 404 exit for an unknown class hash")
     chk.ob("S4", "dependencies:cached_script_view:404-missing-script", dm.loc(nf[-1]) if nf else dm.loc(f), has_script, "missing script -> 404" if has_script else "no 404 exit for a missing script")
     # raising callees only after the lookups succeeded
@@ -187,7 +189,7 @@ def s4(chk: Check, proj: Project, w) -> None:
         if not raises:
             continue
         at = cond_atoms(enclosing_stmt(c))
-        ok = any("script is None" in t and not pol for t, pol in at)
+        ok = any(f"{sv} is None" in t and not pol for t, pol in at)
         chk.ob("S4", f"dependencies:cached_script_view:{tg[1].name}-after-404-exits", dm.loc(c), ok,
                f"{tg[1].name}() (which can raise {norm(raises[0].exc.func) if isinstance(raises[0].exc, ast.Call) else '?'}) runs only after both lookups succeeded" if ok else
                f"{tg[1].name}() can raise on the request's script kind and is called before the 404 exits: an unknown kind for a known component answers 500")
